@@ -11,7 +11,24 @@ use report::generation::generate_report;
 #[macro_use]
 extern crate colour;
 
+//The tree walker recurses once per nesting level of the analyzed source and its stack frames are large,
+//especially in unoptimized builds, so the analysis runs on a thread whose stack does not depend on the
+//platform's default for the main thread
+const ANALYSIS_STACK_SIZE: usize = 512 * 1024 * 1024;
+
 fn main() {
+    let analysis = std::thread::Builder::new()
+        .stack_size(ANALYSIS_STACK_SIZE)
+        .spawn(run)
+        .expect("Unable to start the analysis thread");
+
+    if analysis.join().is_err() {
+        //the panic message has already been printed by the analysis thread
+        std::process::exit(101);
+    }
+}
+
+fn run() {
     let opts = Opts::new();
 
     let vulnerabilities = vulnerabilities::analyze_dir(&opts.path, opts.vulnerabilities);
